@@ -226,9 +226,11 @@ def analyse_function(ctx, kinds: SetKinds, f: Func) -> List[Site]:
                     sites.append(Site(f, n, gen.iter, 'insensitive',
                                       'consumed by %s()' % call_name(par)))
                     continue
-                if isinstance(par, ast.Call) and isinstance(
-                        par.func, ast.Name) and par.func.id == 'dict':
-                    gp = parents.get(id(par))
+                if (isinstance(par, ast.Call) and isinstance(
+                        par.func, ast.Name) and par.func.id == 'dict') or \
+                        isinstance(n, ast.DictComp):
+                    gp = parents.get(id(par)) if not isinstance(
+                        n, ast.DictComp) else par
                     if isinstance(gp, ast.Assign) and len(gp.targets) == 1 \
                             and isinstance(gp.targets[0], ast.Name):
                         name = gp.targets[0].id
